@@ -1,7 +1,7 @@
 """Property id -> check function."""
 import json
 from common import *
-import checks_txn, checks_cache, checks_pure, checks_sess, checks_gates, txnfam, findings
+import checks_txn, checks_cache, checks_pure, checks_sess, checks_gates, checks_serial, txnfam, findings
 
 
 def replay_txn(prop, path):
@@ -84,3 +84,7 @@ def replay_c08(prop, path):
 
 
 REPLAY["C08"] = replay_c08
+
+GENERIC_CONFIRM["C17"] = checks_serial.confirm_fn
+CHECKS["C17"] = checks_serial.run_check
+REPLAY["C17"] = replay_generic
